@@ -195,7 +195,7 @@ def main(engine_name, argv=None):
         if k in seen_keys or len(reported) >= 3:
             continue
         seen_keys.add(k)
-        path = os.path.join(REPLAYS, '%s-%d-%d.json' % (prop, verif_seed, v['index']))
+        path = os.path.join(REPLAYS, '%s-%d-%d-%d.json' % (prop, verif_seed, v['index'], len(reported)))
         doc = {'prop': prop, 'engine': engine_name, 'verif_seed': verif_seed, 'index': v['index'],
                'plan': v['plan'], 'schedule': v.get('schedule'), 'violation': v['violation'],
                'key': k, 'minimised': False}
